@@ -20,6 +20,22 @@ FORBIDDEN_MODULES = {'time', 'datetime', 'random', 'uuid', 'secrets', 'socket', 
                      'tempfile', 'threading', 'multiprocessing', 'subprocess', 'locale', 'pwd'}
 FORBIDDEN_OS = {'environ', 'getenv', 'getpid', 'getcwd', 'urandom', 'times', 'uname', 'getlogin', 'cpu_count',
                 'listdir', 'scandir', 'walk', 'stat', 'getppid', 'getuid'}
+# os.path functions that consult the file system, the working directory or the environment
+FORBIDDEN_OS_PATH = {'abspath', 'realpath', 'relpath', 'expanduser', 'expandvars', 'exists', 'lexists', 'isfile', 'isdir', 'islink',
+                     'ismount', 'getmtime', 'getatime', 'getctime', 'getsize', 'samefile', 'sameopenfile', 'samestat'}
+# methods / properties of pathlib paths that do (the pure ones - name, stem, suffix, parent, parts, with_suffix ... - are fine)
+PATH_FS_MEMBERS = {'resolve', 'absolute', 'cwd', 'home', 'expanduser', 'exists', 'is_file', 'is_dir', 'is_symlink', 'is_mount',
+                   'stat', 'lstat', 'iterdir', 'glob', 'rglob', 'samefile', 'owner', 'group', 'readlink', 'read_text',
+                   'read_bytes', 'open', 'walk', 'is_absolute_'}
+# external modules whose functions are deterministic in their arguments (anything else that is neither here nor forbidden
+# is answered ANALYSIS-ERROR: the rule does not guess)
+PURE_MODULES = {'typing', 'typing_extensions', 'dataclasses', 'enum', 'abc', 'copy', 're', 'itertools', 'functools', 'collections',
+                'operator', 'string', 'textwrap', 'hashlib', 'json', 'orjson', 'math', 'io', 'pathlib', 'os', 'posixpath', 'ntpath',
+                'types', 'numbers', 'contextlib', 'warnings', 'logging', 'keyword', 'bisect', 'heapq', 'struct', 'base64',
+                'binascii', 'unicodedata', 'fnmatch', 'shlex', 'pprint', 'reprlib', 'decimal', 'fractions', 'statistics',
+                'builtins', '__future__', 'inspect', 'traceback', 'sys'}
+FORBIDDEN_SYS = {'argv', 'path', 'modules', 'flags', 'hash_info', 'executable', 'platform', 'version', 'version_info', 'stdin',
+                 'getrefcount', 'getsizeof', 'maxsize', 'prefix', 'implementation', 'getrecursionlimit'}
 FORBIDDEN_BUILTINS = {'id', 'hash', 'vars', 'globals', 'locals', 'input', 'dir', 'object'}
 
 
@@ -138,12 +154,27 @@ def _ambient(ctx, reach: List[FuncInfo]):
                 if isinstance(sym, tuple) and sym[0] == 'ext':
                     parts = sym[1].split('.')
                     n_checked += 1
-                    if parts[0] in FORBIDDEN_MODULES or (parts[0] == 'os' and len(parts) > 1 and parts[1] in FORBIDDEN_OS):
+                    members = {p_.replace('()', '') for p_ in parts[1:]}
+                    if parts[0] in FORBIDDEN_MODULES or (parts[0] == 'os' and len(parts) > 1 and parts[1] in FORBIDDEN_OS) or \
+                            (parts[:2] == ['os', 'path'] and members & FORBIDDEN_OS_PATH) or \
+                            (parts[0] in ('posixpath', 'ntpath') and members & FORBIDDEN_OS_PATH) or \
+                            (parts[0] == 'pathlib' and members & PATH_FS_MEMBERS) or \
+                            (parts[0] == 'sys' and members & FORBIDDEN_SYS):
                         run.violation('C08.ambient', fn.module.name, fn.qualname, n,
-                                      f'ambient source {sym[1]} is reachable from the generator', node=n)
+                                      f'ambient source {sym[1]} (process, working directory, file system or environment '
+                                      f'dependent) is reachable from the generator', node=n)
+                    elif parts[0] not in PURE_MODULES:
+                        run.error('C08.ambient', fn.module.name, fn.qualname, n,
+                                  f'external symbol {sym[1]} is neither in the table of deterministic library modules nor in the '
+                                  f'table of ambient sources: classify it', node=n)
                     else:
                         run.holds('C08.ambient', fn.module.name, fn.qualname, n,
                                   f'external symbol {sym[1]} is not an ambient source', node=n, nontrivial=False)
+            # members of path objects that consult the working directory / file system (`Path(x).resolve().stem`)
+            if isinstance(n, ast.Attribute) and n.attr in PATH_FS_MEMBERS and _is_path_object(ctx, fn, env, n.value):
+                run.violation('C08.ambient', fn.module.name, fn.qualname, n,
+                              f'`{ast.unparse(n)}` consults the working directory / file system: the result depends on the '
+                              f'process the generator runs in', node=n)
             # f-string holes: no default object repr
             if isinstance(n, ast.FormattedValue):
                 t = strip_opt(env.type_of(n.value))
@@ -264,3 +295,33 @@ def _hash_rule(ctx):
         return
     run.holds('C08.hash', fn.module.name, fn.qualname, rets[0],
               'md5 over self.contents encoded as utf-8, hex digest', node=rets[0])
+
+
+def _is_path_object(ctx, fn: FuncInfo, env, e: ast.AST, depth: int = 0) -> bool:
+    """`e` evaluates to a pathlib path: typed so by E1, or a constructor call / `/` join / pure member of one."""
+    if depth > 8:
+        return False
+    try:
+        t = strip_opt(env.type_of(e))
+    except Exception:   # noqa: BLE001 - typing is best effort here
+        t = ('any',)
+    if t[0] == 'extobj' and t[1].startswith('pathlib.'):
+        return True
+    if isinstance(e, ast.Call):
+        sym = ctx.prog.resolve_expr_symbol(fn.module, e.func)
+        if isinstance(sym, tuple) and sym[0] == 'ext' and sym[1].startswith('pathlib.'):
+            return True
+        if isinstance(e.func, ast.Attribute):
+            return _is_path_object(ctx, fn, env, e.func.value, depth + 1)
+        return False
+    if isinstance(e, ast.Attribute):
+        sym = ctx.prog.resolve_expr_symbol(fn.module, e)
+        if isinstance(sym, tuple) and sym[0] == 'ext' and sym[1].startswith('pathlib.'):
+            return True
+        return _is_path_object(ctx, fn, env, e.value, depth + 1)
+    if isinstance(e, ast.BinOp) and isinstance(e.op, ast.Div):
+        return _is_path_object(ctx, fn, env, e.left, depth + 1) or _is_path_object(ctx, fn, env, e.right, depth + 1)
+    if isinstance(e, ast.Name):
+        sites = env._assign_sites.get(e.id, [])
+        return any(k == 'expr' and _is_path_object(ctx, fn, env, v, depth + 1) for k, v, *_ in sites)
+    return False
